@@ -777,9 +777,10 @@ theorem customSection_roundtrip (cfg : Cfg) (m : RawModule) (nm content payload 
   | @custom _ _ a hn =>
     cases hn with
     | @mk nsz hn =>
-      have hno' : ¬ (cfg.debug = true ∧ cstr nm = strBytes Reader.nameSectionName) := by
+      have hno' : ¬ (cfg.debug = true ∧ isNameSection (cstr nm) = true) := by
         intro hc
-        simp [customSkipped, hc.1, hc.2] at hno
+        have h2 := (isNameSection_iff _).1 hc.2
+        simp [customSkipped, hc.1, h2] at hno
       have hassoc : ((nsz ++ nm) ++ content) ++ rest = nsz ++ (nm ++ (content ++ rest)) := by simp [List.append_assoc]
       rw [hassoc]
       have hsize : (((nsz ++ nm) ++ content).length + u32Max -
@@ -798,15 +799,35 @@ theorem customSection_roundtrip (cfg : Cfg) (m : RawModule) (nm content payload 
       · rw [if_neg hp, ite_run, if_neg hno', bind_eq_of_ok (skip_run _ _), pure_run, hdrop]
         simp only [absCustom, if_neg hp]
 
+/-- **custom_section_other_name_ignored**: a custom section whose name (as the C string the reader compares) is not
+    EXACTLY `name` and does not start with `.debug_` — `nam`, `names`, `namespace`, `name.idx`, `.debug`, the empty name, … —
+    leaves the decoded module untouched, with or without `-g`, whatever its content; one that starts with `.debug_` only adds
+    an entry to the list of debug sections.  (The comparison mode — `strcmp`, not `strncmp` — is regenerated from
+    reader.c: `isNameSection_iff`.) -/
+theorem custom_section_other_name_ignored (cfg : Cfg) (m : RawModule) (nm content payload rest : List UInt8)
+    (h : EncPayload (.custom nm content) payload) (hlt : payload.length < u32Max)
+    (hname : cstr nm ≠ strBytes Reader.nameSectionName) :
+    customSection cfg payload.length m (payload ++ rest) = .ok (absCustom m nm content, rest) ∧
+    (¬ ((strBytes Reader.debugSectionNamePrefix).isPrefixOf (cstr nm) = true) → absCustom m nm content = m) ∧
+    { absCustom m nm content with debugSections := m.debugSections } = m := by
+  refine ⟨customSection_roundtrip cfg m nm content payload rest h hlt (by simp [customSkipped, hname]), fun hp => ?_, ?_⟩
+  · simp only [absCustom, if_neg hp]
+  · unfold absCustom; split <;> rfl
+
 /-! ### the name section under `-g`
 
 With `-g` the custom section called `name` is parsed: the function-names subsection (id 1) fills
-`module->functionNames`, every other subsection is skipped by its size.  Names given to more than one function are
-cleared afterwards (`wasmFunctionNamesRemoveDuplicates`). -/
+`module->functionNames` — one slot per function KNOWN AT THAT POINT of the file (a name section may precede the
+function section) —, every other subsection is skipped by its size.  A name for a function index outside that range
+is read and ignored; names given to more than one function are cleared afterwards
+(`wasmFunctionNamesRemoveDuplicates`).  A later name section finds the table of the earlier one: its entries are kept,
+the slots added for functions that became known in between start out empty.  The two source shapes this relies on are
+regenerated (`Gen.Reader.nameIndexOutOfRange`, `nameTableGrowthZeroed`): no hypothesis is left — a name section never
+makes a module fail. -/
 
-/-- `names[functionIndex] = functionName` (as a C string) -/
-def setFuncName (names : List (Option Bytes)) (a : Nat × List UInt8) : List (Option Bytes) :=
-  names.set a.1 (some (cstr a.2))
+/-- `names[functionIndex] = functionName` (as a C string) for a known function; otherwise nothing -/
+def setFuncName (fc : Nat) (names : List (Option Bytes)) (a : Nat × List UInt8) : List (Option Bytes) :=
+  if fc ≤ a.1 then names else names.set a.1 (some (cstr a.2))
 
 /-- `wasmFunctionNamesRemoveDuplicates` on the first `len` entries: a name that occurs more than once is cleared
     everywhere -/
@@ -817,25 +838,17 @@ def dedupNames (names : List (Option Bytes)) (len : Nat) : List (Option Bytes) :
 
 def funcCount (m : RawModule) : Nat := (m.funcImports.length + m.functions.length) % u32Max
 
+/-- the name table a function-names subsection starts from: the entries there are, extended by empty slots up to the
+    number of functions known now -/
+def namesBefore (m : RawModule) : List (Option Bytes) :=
+  m.funcNames ++ List.replicate (funcCount m - m.funcNames.length) none
+
 /-- what a name subsection leaves in the module -/
 def absNameSub (m : RawModule) : NameSub → RawModule
   | .funcNames as =>
-    { m with funcNames := dedupNames (as.foldl setFuncName
-                (if m.funcNames.length < funcCount m then List.replicate (funcCount m) none else m.funcNames)) (funcCount m),
+    { m with funcNames := dedupNames (as.foldl (setFuncName (funcCount m)) (namesBefore m)) (funcCount m),
              funcNamesLen := funcCount m }
   | .other _ _ => m
-
-/-- The indices of a name map are function indices of the module (else `InvalidNameSectionFunctionIndex`), and the
-    name array is either still unallocated or already covers every function: growing it leaves the new tail
-    uninitialised (`Model.Buffer.UB.uninitFunctionNames`, a C10 finding). -/
-def nameSubOK (m : RawModule) : NameSub → Bool
-  | .funcNames as =>
-    (as.all fun a => decide (a.1 < funcCount m)) && (m.funcNames.length == 0 || decide (funcCount m ≤ m.funcNames.length))
-  | .other _ _ => true
-
-def nameSubsOK : RawModule → List NameSub → Bool
-  | _, [] => true
-  | m, s :: ss => nameSubOK m s && nameSubsOK (absNameSub m s) ss
 
 theorem removeDuplicates_eq (names : List (Option Bytes)) (len : Nat) :
     removeDuplicates names len = .ok (dedupNames names len) := by
@@ -845,37 +858,132 @@ theorem removeDuplicates_eq (names : List (Option Bytes)) (len : Nat) :
   · simp [h]
   · simp [h, hg]
 
+/-- the regenerated shape: the range test comes after the name is read and skips the entry -/
+theorem nameIndexRule_current : Reader.nameIndexOutOfRange = "skip-after-name" := rfl
+
+/-- the regenerated shape: the slots added by growing the table are zeroed -/
+theorem nameTableGrowth_current : Reader.nameTableGrowthZeroed = true := rfl
+
+theorem grownNames_eq (m : RawModule) : grownNames m (funcCount m) = some (namesBefore m) := by
+  unfold grownNames namesBefore
+  rw [nameTableGrowth_current]
+  by_cases h : m.funcNames.length < funcCount m
+  · rw [if_pos h]; rfl
+  · rw [if_neg h]
+    have : funcCount m - m.funcNames.length = 0 := by omega
+    rw [this]; simp
+
+theorem namesBefore_length (m : RawModule) : funcCount m ≤ (namesBefore m).length := by
+  unfold namesBefore; simp; omega
+
 theorem funcNameEntry_enc (fc : Nat) (names : List (Option Bytes)) (hlen : fc ≤ names.length) (a : Nat × List UInt8)
-    (ha : a.1 < fc) (b rest : List UInt8) (h : EncNameAssoc a b) :
-    funcNameEntry fc names (b ++ rest) = .ok (setFuncName names a, rest) := by
+    (b rest : List UInt8) (h : EncNameAssoc a b) :
+    funcNameEntry fc names (b ++ rest) = .ok (setFuncName fc names a, rest) := by
   cases h with
   | @mk ib nb hi hn =>
     unfold funcNameEntry
-    rw [List.append_assoc, bind_eq_of_ok (u32_uleb _ hi _), ite_run, if_neg (by omega),
-      bind_eq_of_ok (name_encName _ hn rest), ite_run, if_pos (by omega)]
-    rfl
+    rw [if_pos nameIndexRule_current]
+    unfold funcNameEntrySkip
+    rw [List.append_assoc, bind_eq_of_ok (u32_uleb _ hi _), bind_eq_of_ok (name_encName _ hn rest), ite_run]
+    by_cases hr : fc ≤ a.1
+    · rw [if_pos hr]; simp only [setFuncName, if_pos hr]; rfl
+    · rw [if_neg hr]
+      unfold storeFuncName
+      rw [ite_run, if_pos (by omega)]
+      simp only [setFuncName, if_neg hr]; rfl
 
-theorem setFuncName_length (names : List (Option Bytes)) (a : Nat × List UInt8) :
-    (setFuncName names a).length = names.length := by simp [setFuncName]
+theorem setFuncName_length (fc : Nat) (names : List (Option Bytes)) (a : Nat × List UInt8) :
+    (setFuncName fc names a).length = names.length := by
+  unfold setFuncName; split <;> simp
 
 theorem functionNamesSubsection_enc (m : RawModule) (as : List (Nat × List UInt8)) (p rest : List UInt8)
-    (h : EncVector EncNameAssoc as p) (hok : nameSubOK m (.funcNames as) = true) :
+    (h : EncVector EncNameAssoc as p) :
     functionNamesSubsection m (p ++ rest) = .ok (absNameSub m (.funcNames as), rest) := by
-  simp only [nameSubOK, Bool.and_eq_true, Bool.or_eq_true, beq_iff_eq, decide_eq_true_eq] at hok
-  obtain ⟨hidx, hcap⟩ := hok
   cases h with
   | @mk c body hc hb =>
     unfold functionNamesSubsection
-    rw [List.append_assoc, bind_eq_of_ok (u32_uleb _ hc _), ite_run]
+    rw [List.append_assoc, bind_eq_of_ok (u32_uleb _ hc _)]
     have hfc : (m.funcImports.length + m.functions.length) % u32Max = funcCount m := rfl
-    rw [hfc, if_neg (by omega)]
-    have hiter := iter_enc (f := funcNameEntry (funcCount m)) (g := setFuncName) (fun names => funcCount m ≤ names.length) hb
-      (fun s hs a ha b rest hE => ⟨funcNameEntry_enc _ s hs a (by simpa using List.all_eq_true.1 hidx a ha) b rest hE,
-        by rw [setFuncName_length]; exact hs⟩)
-      (if m.funcNames.length < funcCount m then List.replicate (funcCount m) none else m.funcNames)
-      (by split <;> first | (simp; done) | omega) rest
+    rw [hfc, grownNames_eq]
+    dsimp only
+    have hiter := iter_enc (f := funcNameEntry (funcCount m)) (g := setFuncName (funcCount m))
+      (fun names => funcCount m ≤ names.length) hb
+      (fun s hs a _ b rest hE => ⟨funcNameEntry_enc _ s hs a b rest hE, by rw [setFuncName_length]; exact hs⟩)
+      (namesBefore m) (namesBefore_length m) rest
     rw [bind_eq_of_ok hiter, removeDuplicates_eq]
     rfl
+
+/-- On ANY input (not only grammar encodings) the function-names subsection performs no undefined operation: growing a
+    name table that an earlier name section filled does not leave uninitialised entries behind (`nameTableGrowthZeroed`). -/
+theorem functionNamesSubsection_defined (m : RawModule) (bs : Bytes) (u : UB) : functionNamesSubsection m bs ≠ .ub u := by
+  intro h
+  have hub : UBOnly (fun _ => False) (functionNamesSubsection m) := by
+    unfold functionNamesSubsection
+    refine ub_bind (ub_u32 _) fun n => ?_
+    have hfc : (m.funcImports.length + m.functions.length) % u32Max = funcCount m := rfl
+    rw [hfc, grownNames_eq]
+    dsimp only
+    refine ub_bind ?_ fun names => ?_
+    · exact ub_iter (I := fun ns : List (Option Bytes) => ns.length = (namesBefore m).length)
+        (fun s hs => funcNameEntry_inv _ _ s hs)
+        (fun s hs => funcNameEntry_ub _ s (by rw [hs]; exact namesBefore_length m)) n _ rfl
+    · rw [removeDuplicates_eq]
+      exact ub_pure _
+  exact hub bs u h
+
+theorem name_err (e : Nat) (bs : Bytes) (c : Nat) (h : name e bs = .err c) : c = e := by
+  unfold name at h
+  have h' : P.bind (u32 e) (fun length => takeExact cstr e length) bs = .err c := h
+  unfold P.bind at h'
+  split at h'
+  · rename_i len mid _
+    have h'' : (if mid.length < len then Res.err e else Res.ok (cstr (mid.take len), mid.drop len)) = Res.err c := h'
+    split at h''
+    · cases h''; rfl
+    · cases h''
+  · rename_i c' hu
+    cases h'
+    rw [u32_run] at hu
+    split at hu
+    · cases hu; rfl
+    · cases hu
+  · cases h'
+
+/-- A function index that can be decoded never makes a name entry fail with `InvalidNameSectionFunctionIndex`, whatever its
+    value: an index outside the function index space known so far is not an error (`nameIndexOutOfRange = skip-after-name`). -/
+theorem name_index_never_a_range_error (fc : Nat) (names : List (Option Bytes)) (bs r : Bytes) (idx : Nat)
+    (hidx : u32 E.invalidNameSectionFunctionIndex bs = .ok (idx, r)) :
+    funcNameEntry fc names bs ≠ .err E.invalidNameSectionFunctionIndex := by
+  unfold funcNameEntry
+  rw [if_pos nameIndexRule_current]
+  unfold funcNameEntrySkip
+  rw [bind_eq_of_ok hidx]
+  intro h
+  cases hn : name E.invalidNameSectionFunctionName r with
+  | ok x =>
+    obtain ⟨nm, r2⟩ := x
+    rw [bind_eq_of_ok hn, ite_run] at h
+    split at h
+    · cases h
+    · unfold storeFuncName at h
+      rw [ite_run] at h
+      split at h <;> cases h
+  | err c =>
+    have hc := name_err _ _ _ hn
+    have hb : (name E.invalidNameSectionFunctionName >>= fun nm =>
+        if fc ≤ idx then (pure names : P (List (Option Bytes))) else storeFuncName names idx nm) r = .err c := by
+      show P.bind _ _ r = _
+      unfold P.bind; rw [hn]
+    rw [hb] at h
+    cases h
+    exact absurd hc (by decide)
+  | ub u =>
+    have hb : (name E.invalidNameSectionFunctionName >>= fun nm =>
+        if fc ≤ idx then (pure names : P (List (Option Bytes))) else storeFuncName names idx nm) r = .ub u := by
+      show P.bind _ _ r = _
+      unfold P.bind; rw [hn]
+    rw [hb] at h
+    cases h
 
 theorem nameSectionLoop_succ (endRem : Int) (fuel : Nat) (m : RawModule) (bs : Bytes) :
     nameSectionLoop endRem (fuel + 1) m bs =
@@ -896,28 +1004,27 @@ theorem encNameSubs_length {subs : List NameSub} {body : List UInt8} (h : EncSeq
     simp only [List.length_cons, List.length_append]; omega
 
 theorem nameSectionLoop_enc : ∀ {subs : List NameSub} {body : List UInt8}, EncSeq EncNameSub subs body →
-    ∀ (fuel : Nat) (m : RawModule) (rest : Bytes), subs.length ≤ fuel → nameSubsOK m subs = true →
+    ∀ (fuel : Nat) (m : RawModule) (rest : Bytes), subs.length ≤ fuel →
       nameSectionLoop (rest.length : Int) fuel m (body ++ rest) = .ok (subs.foldl absNameSub m, rest) := by
   intro subs body h
   induction h with
   | nil =>
-    intro fuel m rest _ _
+    intro fuel m rest _
     cases fuel with
     | zero => rfl
     | succ f => rw [nameSectionLoop_succ, if_pos (by simp)]; rfl
   | @cons s ss b bs hs _ ih =>
-    intro fuel m rest hf hok
-    simp only [nameSubsOK, Bool.and_eq_true] at hok
+    intro fuel m rest hf
     cases fuel with
     | zero => simp at hf
     | succ f =>
       have hpos : 0 < b.length := List.length_pos_iff.2 (encNameSub_ne_nil hs)
       rw [nameSectionLoop_succ, if_neg (by simp only [List.length_append]; omega), List.append_assoc]
-      have hrec := ih f (absNameSub m s) rest (by simpa using hf) hok.2
+      have hrec := ih f (absNameSub m s) rest (by simpa using hf)
       cases hs with
       | @funcNames as p sz hp hsz =>
         rw [List.cons_append, bind_eq_of_ok (byte_cons _ _ _), List.append_assoc, bind_eq_of_ok (u32_uleb _ hsz _),
-          if_pos (by decide), bind_eq_of_ok (functionNamesSubsection_enc m as p _ hp hok.1)]
+          if_pos (by decide), bind_eq_of_ok (functionNamesSubsection_enc m as p _ hp)]
         exact hrec
       | @other id content sz hid hsz =>
         have hne : ¬ (id.toNat = Reader.nameSubsectionFunctionNames) := by
@@ -932,10 +1039,11 @@ theorem nameSectionLoop_enc : ∀ {subs : List NameSub} {body : List UInt8}, Enc
 
 /-- **nameSection_roundtrip**: under `-g`, the custom section `name` — its size-delimited subsections in any order
     and number, sizes, counts, indices and name lengths in any padding — is consumed exactly; the function names are
-    stored (C strings, duplicates cleared), every other subsection is skipped. -/
+    stored (C strings; names of functions not known at this point of the file ignored; duplicates cleared), every other
+    subsection is skipped.  No hypothesis on the module or on the indices: a name section at any position, any number of
+    name sections, never make a module fail. -/
 theorem nameSection_roundtrip (cfg : Cfg) (hg : cfg.debug = true) (m : RawModule) (subs : List NameSub)
-    (payload rest : List UInt8) (h : EncPayload (.names subs) payload) (hlt : payload.length < u32Max)
-    (hok : nameSubsOK m subs = true) :
+    (payload rest : List UInt8) (h : EncPayload (.names subs) payload) (hlt : payload.length < u32Max) :
     customSection cfg payload.length m (payload ++ rest) = .ok (subs.foldl absNameSub m, rest) := by
   cases h with
   | @names _ a body hn hb =>
@@ -952,12 +1060,12 @@ theorem nameSection_roundtrip (cfg : Cfg) (hg : cfg.debug = true) (m : RawModule
       have hpre : ¬ ((strBytes Reader.debugSectionNamePrefix).isPrefixOf (strBytes Reader.nameSectionName) = true) := by decide
       unfold customSection
       rw [remaining_bind, bind_eq_of_ok (name_enc _ hn (body ++ rest)), remaining_bind, hsize, hcstr, ite_run, if_neg hpre,
-        ite_run, if_pos ⟨hg, rfl⟩]
+        ite_run, if_pos ⟨hg, (isNameSection_iff _).2 rfl⟩]
       show nameSectionLoop (((body ++ rest).length : Int) - (body.length : Nat)) ((body ++ rest).length + 1) m (body ++ rest) = _
       have hend : (((body ++ rest).length : Int) - (body.length : Nat)) = (rest.length : Int) := by
         rw [List.length_append]; omega
       rw [hend]
-      exact nameSectionLoop_enc hb _ m rest (by have := encNameSubs_length hb; rw [List.length_append]; omega) hok
+      exact nameSectionLoop_enc hb _ m rest (by have := encNameSubs_length hb; rw [List.length_append]; omega)
 
 /-! ### all sections: `read_encode_roundtrip`
 
@@ -968,7 +1076,6 @@ interpreted (the name section under `-g`).  It is a `Bool`: decidable for every 
 
 def accepts (cfg : Cfg) (m : RawModule) : Sec → Bool
   | .custom nm _ => customSkipped cfg nm
-  | .names subs => !cfg.debug || nameSubsOK m subs
   | .function xs => xs.all fun i => decide (i < m.types.length)
   | .global gs => supportedGlobals gs
   | .export es => es.all (exportValid m)
@@ -1007,8 +1114,7 @@ theorem sectionReader_roundtrip (cfg : Cfg) (m : RawModule) (s : Sec) (p rest : 
     show customSection cfg (a ++ body).length m ((a ++ body) ++ rest) = _
     cases hg : cfg.debug with
     | true =>
-      have hok : nameSubsOK m subs = true := by simpa [accepts, hg] using ha
-      rw [nameSection_roundtrip cfg hg m subs _ rest (.names hn hb) hlt hok]
+      rw [nameSection_roundtrip cfg hg m subs _ rest (.names hn hb) hlt]
       simp [absSec, hg]
     | false =>
       have hsk : customSkipped cfg nameSectionNameBytes = true := by simp [customSkipped, hg]
@@ -1147,16 +1253,6 @@ theorem foldl_absNameSub_setLength (L : Nat) (subs : List NameSub) : ∀ m : Raw
   | nil => intro m; rfl
   | cons s ss ih => intro m; rw [List.foldl_cons, List.foldl_cons, absNameSub_setLength, ih]
 
-theorem nameSubsOK_setLength (L : Nat) (subs : List NameSub) : ∀ m : RawModule,
-    nameSubsOK { m with length := L } subs = nameSubsOK m subs := by
-  induction subs with
-  | nil => intro m; rfl
-  | cons s ss ih =>
-    intro m
-    simp only [nameSubsOK]
-    rw [absNameSub_setLength, ih]
-    cases s <;> rfl
-
 theorem absSec_setLength (cfg : Cfg) (m : RawModule) (L : Nat) (s : Sec) :
     absSec cfg { m with length := L } s = { absSec cfg m s with length := L } := by
   cases s with
@@ -1174,9 +1270,7 @@ theorem absSec_setLength (cfg : Cfg) (m : RawModule) (L : Nat) (s : Sec) :
 
 theorem accepts_setLength (cfg : Cfg) (m : RawModule) (L : Nat) (s : Sec) :
     accepts cfg { m with length := L } s = accepts cfg m s := by
-  cases s with
-  | names subs => simp only [accepts, nameSubsOK_setLength]
-  | _ => rfl
+  cases s <;> rfl
 
 theorem absSecs_setLength (cfg : Cfg) (L : Nat) (ss : List Sec) : ∀ m : RawModule,
     absSecs cfg { m with length := L } ss = { absSecs cfg m ss with length := L } := by
@@ -1413,7 +1507,26 @@ example (strict : Bool) (rest : Bytes) :
         ([0x04, 0x6E, 0x61, 0x6D, 0x65, 0x00, 0x02, 0x01, 0x6D, 0x01, 0x84, 0x00, 0x01, 0x00, 0x01, 0x66] ++ rest) =
       .ok ({ nvM with funcNames := [some [0x66]], funcNamesLen := 1 }, rest) :=
   nameSection_roundtrip ⟨true, strict⟩ rfl nvM _
-    [0x04, 0x6E, 0x61, 0x6D, 0x65, 0x00, 0x02, 0x01, 0x6D, 0x01, 0x84, 0x00, 0x01, 0x00, 0x01, 0x66] rest nv_names (by decide) (by decide)
+    [0x04, 0x6E, 0x61, 0x6D, 0x65, 0x00, 0x02, 0x01, 0x6D, 0x01, 0x84, 0x00, 0x01, 0x00, 0x01, 0x66] rest nv_names (by decide)
+
+/-- the same name section IN FRONT of the function section (no function known yet): the name is read and ignored, the
+    module is accepted and unchanged -/
+example (strict : Bool) (rest : Bytes) :
+    customSection ⟨true, strict⟩ 16 (RawModule.empty 100)
+        ([0x04, 0x6E, 0x61, 0x6D, 0x65, 0x00, 0x02, 0x01, 0x6D, 0x01, 0x84, 0x00, 0x01, 0x00, 0x01, 0x66] ++ rest) =
+      .ok (RawModule.empty 100, rest) :=
+  nameSection_roundtrip ⟨true, strict⟩ rfl (RawModule.empty 100) _
+    [0x04, 0x6E, 0x61, 0x6D, 0x65, 0x00, 0x02, 0x01, 0x6D, 0x01, 0x84, 0x00, 0x01, 0x00, 0x01, 0x66] rest nv_names (by decide)
+
+/-- a SECOND name section after one more function became known: the earlier entry is kept, the new slot starts empty and
+    is then named (here: the same subsections again on a table `[some "f"]` with two functions known) -/
+example (strict : Bool) (rest : Bytes) :
+    customSection ⟨true, strict⟩ 16
+        { nvM with functions := [Function.empty 0, Function.empty 0], funcNames := [some [0x66]], funcNamesLen := 1 }
+        ([0x04, 0x6E, 0x61, 0x6D, 0x65, 0x00, 0x02, 0x01, 0x6D, 0x01, 0x84, 0x00, 0x01, 0x00, 0x01, 0x66] ++ rest) =
+      .ok ({ nvM with functions := [Function.empty 0, Function.empty 0], funcNames := [some [0x66], none], funcNamesLen := 2 }, rest) :=
+  nameSection_roundtrip ⟨true, strict⟩ rfl _ _
+    [0x04, 0x6E, 0x61, 0x6D, 0x65, 0x00, 0x02, 0x01, 0x6D, 0x01, 0x84, 0x00, 0x01, 0x00, 0x01, 0x66] rest nv_names (by decide)
 
 /-- `read_encode_roundtrip` on a framed global section (size 8 padded to `88 00`) and on a framed custom section -/
 theorem nv_sec_global : EncSec (.global [⟨⟨⟨.i32, true⟩, [.i32const 5]⟩, [0x41, 0x85, 0x00, 0x0B]⟩])
